@@ -150,4 +150,12 @@ def run(cx):
             ok = bool(re.search(r'adjusted_ttl|authenticated_ttl|sig_expiration', s.term))
             cx.check('C06.S2', ok, i.path, s.key(), 'expiry-depends-on-signature-lifetime',
                      'expiry = ' + s.term[:300], s.loc)
+            # ... and the signature cap is the LAST operation on the lifetime of a positive verdict: nothing (a configured
+            # lower bound, a clamp) may raise the lifetime again after min(.., authenticated ttl)
+            m = re.search(r'<Instant as Add<Duration>>::add\(Instant::now\(\),(.*)\),arg2\)\)?$', s.term)
+            life = m.group(1) if m else ''
+            CAP = r'Ord::min\((.*),Duration::from_secs\(into<u64>\(arg2@Ok\.0\.adjusted_ttl@Some\.0\)\)\)'
+            capped_last = bool(re.fullmatch(CAP, life)) or bool(re.fullmatch(r'phi\((.*)\|' + CAP + r'\)', life))
+            cx.check('C06.S2', capped_last, i.path, s.key(), 'signature-cap-applied-last',
+                     'the cached lifetime of a Secure verdict is not min(.., authenticated ttl) at the top level: a bound applied afterwards can outlive the signature; lifetime = ' + life[:260], s.loc)
         cx.check('C06.S2', len(ins) == 1, i.path, 'calls', 'single-insert', str(len(ins)))
